@@ -823,3 +823,91 @@ Proof.
   repeat (apply StCons with (s2 := ([1], [2])); [constructor; try reflexivity|]).
   constructor.
 Qed.
+
+(* ------------------------------------------------------------------ single-axis runs (run(true,false), run(false,true),
+   run(false,false)): which projections happen, and which happen last, for each flag combination *)
+Lemma projs_app t1 t2 : projs (t1 ++ t2) = projs t1 ++ projs t2.
+Proof. unfold projs. apply flat_map_app. Qed.
+
+(* one iteration: every descent evaluation projects both axes and then solves once per laid-out axis; a projection of both
+   axes closes the iteration - for every flag combination *)
+Lemma iteration_projs_eq rk xa ya : projs (iteration rk xa ya) = iteration_projs rk xa ya.
+Proof. destruct rk, xa, ya; reflexivity. Qed.
+
+Theorem run_projs_thm rk xa ya iters :
+  projs (run_trace rk xa ya iters) = rep_tr iters (iteration_projs rk xa ya).
+Proof.
+  induction iters as [|k IH]; [reflexivity|]. cbn [run_trace]. rewrite projs_app, IH, iteration_projs_eq.
+  clear IH. induction k as [|k IH]; cbn [rep_tr]; [rewrite app_nil_r; reflexivity|].
+  rewrite <- app_assoc, IH. reflexivity.
+Qed.
+
+(* whatever the flags, the trace of run() ENDS with the projection of X followed by the projection of Y: the constraints
+   of the axis that is not laid out are projected last as well *)
+Theorem single_axis_run_ends_with_both_projections_thm rk xa ya iters :
+  (1 <= iters)%nat -> exists pre, run_trace rk xa ya iters = pre ++ [WProj DX; WProj DY].
+Proof.
+  intro H. destruct iters as [|k]; [lia|]. cbn [run_trace].
+  destruct (iteration_ends rk xa ya) as [pre E]. rewrite E, app_assoc. eexists. reflexivity.
+Qed.
+
+(* in run(true,false) the array Y is written only by projections onto the Y constraints and by the random displacement
+   of coincident nodes (computeForces writes X[v] and Y[v] whatever the dimension); symmetric for run(false,true) *)
+Definition only_proj_or_displace (d : dim) (w : wr) : bool :=
+  negb (writes d w) || match w with WProj _ | WDisplace => true | _ => false end.
+Theorem single_axis_other_axis_writes_thm rk iters :
+  forallb (only_proj_or_displace DY) (run_trace rk true false iters) = true /\
+  forallb (only_proj_or_displace DX) (run_trace rk false true iters) = true /\
+  forallb (fun w => match w with WProj _ => true | _ => false end) (run_trace rk false false iters) = true.
+Proof.
+  induction iters as [|k (IH1 & IH2 & IH3)]; [repeat split|]. cbn [run_trace]. rewrite !forallb_app, IH1, IH2, IH3.
+  destruct rk; repeat split.
+Qed.
+
+(* the VARIANT that moves only the axes being laid out loses the property for single-axis runs: no projection of the other
+   axis at all, its last write (if any) is the random displacement *)
+Theorem axes_only_variant_refuted_thm rk iters :
+  (1 <= iters)%nat ->
+  projs (run_trace_axes rk true false iters) = rep_tr iters (rep_tr (if rk then 9%nat else 3%nat) [DX]) /\
+  last_write DY (run_trace_axes rk true false iters) = Some WDisplace /\
+  last_write DX (run_trace_axes rk false true iters) = Some WDisplace /\
+  run_trace_axes rk true true iters = run_trace rk true true iters.
+Proof.
+  intro H. destruct iters as [|k]; [lia|]. clear H. repeat split.
+  - induction k as [|k IH]; [destruct rk; reflexivity|].
+    change (run_trace_axes rk true false (S (S k))) with (run_trace_axes rk true false (S k) ++ iteration_axes rk true false).
+    rewrite projs_app, IH. clear IH.
+    assert (E : projs (iteration_axes rk true false) = rep_tr (if rk then 9%nat else 3%nat) [DX]) by (destruct rk; reflexivity).
+    rewrite E. generalize (rep_tr (if rk then 9%nat else 3%nat) [DX]). intro l.
+    clear E. induction (S k) as [|m IH]; cbn [rep_tr]; [rewrite app_nil_r; reflexivity|].
+    rewrite <- app_assoc, IH. reflexivity.
+  - cbn [run_trace_axes]. rewrite last_write_app. destruct rk; reflexivity.
+  - cbn [run_trace_axes]. rewrite last_write_app. destruct rk; reflexivity.
+  - induction (S k) as [|m IH]; [reflexivity|]. cbn [run_trace_axes run_trace]. rewrite IH. destruct rk; reflexivity.
+Qed.
+
+(* semantically: under the variant a single-axis run can end with the other axis infeasible (whenever the start is),
+   while the code's trace cannot (run_final_feasible holds for all flags) *)
+Theorem axes_only_variant_can_end_infeasible_thm (feasX feasY : list Q -> Prop) X0 Y0 rk iters :
+  feasX X0 -> ~ feasY Y0 ->
+  exists s', steps feasX feasY (run_trace_axes rk true false iters) (X0, Y0) s' /\ ~ feasY (snd s').
+Proof.
+  intros HX HY. exists (X0, Y0). split; [|exact HY].
+  assert (St : forall t, forallb (fun w => match w with WProj DY | WDescent DY | WBlend DY => false | _ => true end) t = true ->
+                         steps feasX feasY t (X0, Y0) (X0, Y0)).
+  { induction t as [|w t IH]; intro F; [constructor|]. cbn [forallb] in F. apply andb_true_iff in F. destruct F as [Fw Ft].
+    apply StCons with (s2 := (X0, Y0)); [|auto].
+    destruct w as [[|]| |[|]|[|]]; try discriminate; constructor; assumption. }
+  apply St. induction iters as [|k IH]; [reflexivity|]. cbn [run_trace_axes]. rewrite forallb_app, IH. destruct rk; reflexivity.
+Qed.
+
+Example single_axis_trace_example :
+  projs (run_trace true true false 1) = [DX; DY; DX; DX; DY; DX; DX; DY; DX; DX; DY; DX; DX; DY] /\
+  projs (run_trace_axes true true false 1) = [DX; DX; DX; DX; DX; DX; DX; DX; DX].
+Proof. split; reflexivity. Qed.
+Example axes_only_variant_nonvacuous :
+  exists s', steps (fun X => X = [1]) (fun Y => Y = [2]) (run_trace_axes false true false 1) ([1], [0]) s' /\ snd s' <> [2].
+Proof.
+  destruct (axes_only_variant_can_end_infeasible_thm (fun X => X = [1]) (fun Y => Y = [2]) [1] [0] false 1) as (s' & H1 & H2);
+    [reflexivity|discriminate|]. exists s'. auto.
+Qed.
